@@ -28,6 +28,14 @@ type hashmap struct {
 	table   map[int][]*entry
 	order   []*entry
 	length  int
+	// creator is the merged-call path that allocated the map (nil outside merged
+	// calls). While that path is the innermost one running, mutations need no undo
+	// record: nothing outside the path can reach the map.
+	creator *mergeCtx
+}
+
+func (m *hashmap) freshIn(i *interpreter) bool {
+	return m.creator != nil && i != nil && i.X != nil && i.X.mctx == m.creator
 }
 
 // makeMap returns an empty initialized map of key type kt.
@@ -73,7 +81,7 @@ func (m *hashmap) delete(i *interpreter, k value) {
 	}
 	e.deleted = true
 	m.length--
-	if i != nil && i.logging() {
+	if i != nil && i.logging() && !m.freshIn(i) {
 		i.logUndo(func() {
 			e.deleted = false
 			m.table[h] = append(m.table[h], e)
@@ -99,7 +107,7 @@ func (m *hashmap) insert(i *interpreter, k value, v value) {
 	checkKey(k)
 	e, h := m.find(k)
 	if e != nil {
-		if i != nil && i.logging() {
+		if i != nil && i.logging() && !m.freshIn(i) {
 			old := e.value
 			i.logUndo(func() { e.value = old })
 		}
@@ -110,7 +118,7 @@ func (m *hashmap) insert(i *interpreter, k value, v value) {
 	m.table[h] = append(m.table[h], e)
 	m.order = append(m.order, e)
 	m.length++
-	if i != nil && i.logging() {
+	if i != nil && i.logging() && !m.freshIn(i) {
 		i.logUndo(func() {
 			b := m.table[h]
 			for j := range b {
